@@ -399,7 +399,7 @@ def r9_input_connector(ctx):
                       f'{ast.unparse(st.targets[0])} is filled from the configured {sorted(srcs)}: with default connector losses that differ '
                       'between input and output the fibre is entered with another power than the configured one, and its NLI is not the '
                       'closed form for the configured span', ast.unparse(st)[:160])
-    ctx.need('R9.input-connector', 2)
+    ctx.need('R9.input-connector', 1)
 
 
 from ..memo import rule_for as _memo_rule
